@@ -8,6 +8,11 @@ type Shrinker interface {
 	Shrink(c *Case, v *Violation) []*Case
 }
 
+// Validator lets a property reject candidates that leave its oracle's assumptions.
+type Validator interface {
+	Valid(c *Case) bool
+}
+
 type slot struct {
 	get func() *Node
 	set func(*Node)
@@ -311,6 +316,9 @@ func minimise(prop Property, c *Case, v *Violation, budget int) (*Case, *Violati
 				cand = mk()
 			}()
 			if cand == nil || caseSize(cand) >= caseSize(cur) {
+				continue
+			}
+			if val, ok := prop.(Validator); ok && !val.Valid(cand) {
 				continue
 			}
 			spent++
